@@ -66,6 +66,7 @@ def gen_recording_cfg(rng, prop, tier, backends=None, dtypes=None, max_n=64, max
         cfg['parts'] = composition(rng, n, rng.choice([1, 1, 2, 3, 4]))
         cfg['offset'] = rng.choice([0, 0, 1, 2, 7, 16, 64])
         cfg['ext'] = rng.choice(['.dat', '.bin', '.raw'])
+        cfg['naming'] = rng.choice(['indexed', 'unpadded', 'reversed'])
     if backend == 'cbin':
         cfg['cbin_chunk'] = rng.choice([1, 2, 3, 5, 8, max(1, n // 3), n, n + 2])
         cfg['n_threads'] = rng.randint(1, 4)
@@ -100,7 +101,14 @@ class Recording(object):
         if backend == 'flat':
             i = 0
             for k, p in enumerate(cfg['parts']):
-                path = root / ('rec%d%s' % (k, cfg['ext']))
+                naming = cfg.get('naming', 'indexed')
+                if naming == 'unpadded':      # t8, t9, t10, t11: lexicographic != numeric order
+                    stem = 'rec_g0_t%d' % (k + 8)
+                elif naming == 'reversed':    # given order is the reverse of the sorted order
+                    stem = 'rec_%s' % 'dcba'[k % 4] if len(cfg['parts']) <= 4 else 'rec%d' % k
+                else:
+                    stem = 'rec%d' % k
+                path = root / (stem + cfg['ext'])
                 with open(path, 'wb') as f:
                     f.write(bytes((j * 37 + 11) % 256 for j in range(cfg['offset'])))
                     f.write(np.ascontiguousarray(self.A[i:i + p]).tobytes())
